@@ -233,7 +233,14 @@ func genMtA(seed uint64, run int) *Scenario {
 	vals := []string{"zero", "one", "qm1", "rand"}
 	alters := []string{"none", "none", "none", "cA+1", "cA-rand", "cA+N", "cB+1", "cB+N", "cB-rand", "wrong-point"}
 	k := run / 3
-	p := map[string]interface{}{"alice": k % 5, "bob": (k/5 + 1 + k%5) % 5, "a": vals[(k/25)%4], "b": vals[(k/100)%4], "wc": r.IntN(2) == 0, "alter": alters[r.IntN(len(alters))]}
+	// (a,b) cycles fastest so that every quick run covers all sixteen combinations; the ordered pair
+	// of parameter sets cycles next
+	p := map[string]interface{}{"alice": (k / 16) % 5, "bob": ((k/16)/5 + 1 + (k/16)%5) % 5, "a": vals[k%4], "b": vals[(k/4)%4], "wc": r.IntN(2) == 0, "alter": alters[r.IntN(len(alters))]}
+	if k%48 < 32 {
+		// two thirds of the exchanges are fault-free identity checks: all sixteen (a,b) without and with the point check
+		p["alter"] = "none"
+		p["wc"] = (k%48)/16 == 1 && p["b"] != "zero"
+	}
 	if p["alice"] == p["bob"] {
 		p["bob"] = (p["alice"].(int) + 1) % 5
 	}
